@@ -6,7 +6,7 @@ from . import core, meta as M, suite_meta as SM, stackgen as G, check_stack as C
 THEOREMS = ['C14.default_lists_literal', 'C14.substring_iff', 'C14.default_filter_iff', 'C14.default_excluded',
             'C14.default_keeps_included', 'C14.default_keeps_unmatched', 'C14.default_examples',
             'C14.extra_lists_compose', 'C14.regex_filter', 'C14.regex_filter_append', 'C14.filter_key',
-            'C14.filter_entries', 'C14.filter_keys', 'C14.filter_geometry', 'C14.filter_valid']
+            'C14.filter_entries', 'C14.filter_keys', 'C14.filter_geometry', 'C14.filter_valid', 'C14.filter_meta_regex_chain']
 
 WORDS = ['Patient', 'Name', 'Date', 'UID', 'Echo', 'Time', 'Image', 'Position', 'Orientation', 'Series',
          'Instance', 'Csa', 'Physician', 'Age', 'Comment', 'Station', 'Private', 'X', 'Number', 'Study']
